@@ -261,6 +261,10 @@ func (maps *trackedMaps) processUnfiltered(ctx context.Context, ef *Filter, filt
 					return fmt.Errorf("%s: unable to filter wrappers string value: %w", op, err)
 				}
 				vv := reflect.ValueOf(wrapperspb.StringValue{Value: s})
+				if fPtr {
+					// the map holds a pointer to the wrapper: it still does
+					vv = reflect.ValueOf(&wrapperspb.StringValue{Value: s})
+				}
 				v.SetMapIndex(key, vv)
 
 			case ftype == reflect.TypeOf(wrapperspb.BytesValue{}):
@@ -270,6 +274,10 @@ func (maps *trackedMaps) processUnfiltered(ctx context.Context, ef *Filter, filt
 					return fmt.Errorf("%s: unable to filter wrappers bytes value: %w", op, err)
 				}
 				vv := reflect.ValueOf(wrapperspb.BytesValue{Value: s})
+				if fPtr {
+					// the map holds a pointer to the wrapper: it still does
+					vv = reflect.ValueOf(&wrapperspb.BytesValue{Value: s})
+				}
 				v.SetMapIndex(key, vv)
 
 			case fkind == reflect.Slice:
